@@ -395,6 +395,17 @@ fn spawn_workers(prop: &str, tier: Tier, seed: u64, runs: u64, budget_s: f64, wo
                 m.stalled = true;
                 continue;
             }
+            _ if out.status.code() == Some(5) => {
+                // a call of the world below never came back in its interleaving (the worker had to give up its process)
+                if let Some(l) = text.lines().rev().find(|l| l.starts_with("NEVER-RETURNS ")) {
+                    if let Ok(w) = serde_json::from_str::<Value>(&l[14..]) {
+                        m.violations.push(json!({"run_index": -1, "run_seed": 0, "class": "call_never_returns",
+                            "detail": "a simulated client kept computing for 15 s without reaching any scheduling point, although every call of this world returned in isolation: whether the call returns depends on the interleaving",
+                            "log_hash": "", "signature": "never-returns", "world": w}));
+                    }
+                }
+                continue;
+            }
             _ => {
                 m.worker_failures.push(format!("worker {} status {:?}", wi, out.status));
                 continue;
